@@ -43,6 +43,7 @@ structure ItemDesc where
   isFrame : Bool := false
   weakrefable : Bool := true
   genLike : Bool := false
+  frameOf : Option Nat := none
   unwrap : UnwrapRes := .none
   elabNone : ElabRes := .none
   elabLeaf : ElabRes := .none
@@ -57,9 +58,9 @@ def parseItem (j : Json) : Except String ItemDesc := do
   | "thing" => pure { id, unwrap := (← parseUnwrap (← jField j "uw")) }
   | "thingnw" => pure { id, weakrefable := false, unwrap := (← parseUnwrap (← jField j "uw")) }
   | "gen" =>
-    let f ← jNat (← jField j "frame")
+    let f ← jOptNat (← jField j "frame")     -- null for an exhausted generator (gi_frame is None)
     let yf ← jOptNat (← jField j "yf")
-    pure { id, genLike := true, unwrap := .seq [some f, yf] }
+    pure { id, genLike := true, frameOf := f, unwrap := .seq [f, yf] }
   | "frame" =>
     let el ← jField j "el"
     let (n, l, f) ← match el with
@@ -84,6 +85,7 @@ def mkEnv (items : Array ItemDesc) (wc : Bool) : Env :=
     elabHide := fun i => (get i).hide
     weakrefable := fun i => (get i).weakrefable
     genLike := fun i => (get i).genLike
+    frameOf := fun i => (get i).frameOf
     withContexts := wc
     ctxErrs := fun i => (get i).ctx }
 
@@ -112,12 +114,23 @@ def showOutcome : Outcome → String
   | .done fs l es =>
     "frames=[" ++ " ".intercalate (fs.map showFrame) ++ "] leaf=" ++ showLeaf l ++ " errors=[" ++ ",".intercalate (es.map showErr) ++ "]"
 
+def showOutermost : OutermostRes → String
+  | .frame f => "frame=" ++ showFrame f
+  | .raiseGroup es => "raise group[" ++ ",".intercalate (es.map showErr) ++ "]"
+  | .raiseRecorded e => "raise " ++ showErr e
+  | .raiseNoFrame _ => "raise noframe"
+  | .outOfFuel => "DIVERGES"
+
 def handle (j : Json) : Except String String := do
   let items ← (← jArr (← jField j "items")).mapM parseItem
   let wc := (j.getObjVal? "wc" >>= Json.getBool?).toOption.getD false
   let x ← jNat (← jField j "x")
   let fuel := (j.getObjVal? "fuel" >>= Json.getNat?).toOption.getD 3000
   let env := mkEnv items wc
-  pure (showOutcome (extract env fuel x))
+  let mode := (j.getObjVal? "mode" >>= Json.getStr?).toOption.getD "extract"
+  if mode == "outermost" then
+    pure (showOutermost (extractOutermost env fuel x))
+  else
+    pure (showOutcome (extract env fuel x))
 
 end SS.Drv.C10
